@@ -14,13 +14,23 @@ in `Juniper/Proofs/Batch*.lean` are about; it is re-checked by `decide` on every
 
 Only the property theorems and their non-vacuity examples live here.
 -/
-set_option linter.unusedVariables false
-
 namespace Juniper.Props.C11
 open Juniper.Model.Batch Juniper.Proofs.Batch
 
 /-- Tie 1: the facts extracted from the Go source now are the facts the proofs are about. -/
 theorem code_is_good : code = good := by decide
+
+/-- Tie 1, statement order facts the model relies on but cannot observe at quiescence: the producer
+defers `wg.Done()` first (so it runs last: the source is closed and `c` is closed before `Close`'s
+`wg.Wait()` can return), `Close` is `bgCancel(); wg.Wait()` over exactly two goroutines, the three
+channels are rendez-vous channels, and `timer.Reset` gets the same duration as `time.NewTimer`. -/
+theorem code_order_facts :
+    Gen.Batch.producerDefers = ["out.wg.Done()", "s.Close()", "close(c)"] ∧
+    Gen.Batch.closeStmts = ["iter.bgCancel()", "iter.wg.Wait()"] ∧
+    Gen.Batch.wgCount = 2 ∧
+    Gen.Batch.unbufferedChans = Gen.Batch.chanMakes ∧
+    Gen.Batch.timerResetDur = Gen.Batch.timerDur := by
+  refine ⟨by decide, by decide, by decide, by decide, rfl⟩
 
 theorem reach_good {cfg : Cfg} {s : State} (h : Reach code cfg s) : Reach good cfg s :=
   code_is_good ▸ h
@@ -221,11 +231,10 @@ example : ∃ s, Reach code (Cfg.ofBatch 10 2) s ∧ s.results = [.ctxErr, .batc
 background context is cancelled: it stays cancelled, every step of the producer, the batcher or the
 runtime strictly decreases `measure` (so only finitely many can happen), and a state in which none is
 enabled has both goroutines finished and `wg.Wait()` returned. Assumptions: the user's `full`
-returns (`hfull`) and the source's `Next` honours `bgCtx` (the `prodCancelled` step). -/
+returns (`hfull`) and the source's `Next` honours `bgCtx` (the `prodCancelled` step). That `Close` is
+`bgCancel(); wg.Wait()` over two goroutines is `code_order_facts`. -/
 theorem batch_close_returns {cfg : Cfg} (hfull : ∀ b, ∃ r, cfg.fullOK b r = true) {s : State}
-    (h : Reach code cfg s) (hc : s.bgCancelled = true)
-    (hclose : Gen.Batch.closeStmts = ["iter.bgCancel()", "iter.wg.Wait()"] := by decide)
-    (hwg : Gen.Batch.wgCount = 2 := by decide) :
+    (h : Reach code cfg s) (hc : s.bgCancelled = true) :
     (∀ l s', l.internal = true → step code cfg s l = some s' →
       s'.bgCancelled = true ∧ measure s' < measure s) ∧
     (Quiescent code cfg s → s.ppc = .done ∧ s.bpc = .done ∧ s.closeReturned = true) := by
@@ -246,9 +255,9 @@ example : ∃ s, Reach code (Cfg.ofBatch 10 2) s ∧ s.bgCancelled = true ∧ s.
 and Close never overlap** (C09): the source's `Close` has been called at most once, exactly once when
 `Close` of the stream has returned; the source never saw `Next` after `Close`; while a `Next` of the
 source is pending its `Close` has not been called, and `Close` is only ever called by the goroutine
-that calls `Next`, after its last `Next` returned. -/
-theorem batch_source_closed_once {cfg : Cfg} {s : State} (h : Reach code cfg s)
-    (hdefers : Gen.Batch.producerDefers = ["out.wg.Done()", "s.Close()", "close(c)"] := by decide) :
+that calls `Next`, after its last `Next` returned. The model runs the producer's deferred calls in
+the order `close(c)`, `s.Close()`, `wg.Done()`; that this is the source's order is `code_order_facts`. -/
+theorem batch_source_closed_once {cfg : Cfg} {s : State} (h : Reach code cfg s) :
     s.srcCloses ≤ 1 ∧
     (s.closeReturned = true → s.srcCloses = 1) ∧
     s.srcNextAfterClose = false ∧
